@@ -10,6 +10,7 @@ TOPLEVEL_UNREGISTERED = "extension-definition--5b3b0b3c-0a4e-4f0f-9c57-0d7f7a1b2
 
 
 _refused_done = []
+LEFT_BEHIND = []
 
 
 def refused_registrations():
@@ -22,9 +23,14 @@ def refused_registrations():
     import stix2
     from stix2 import properties as P
     n = 0
+    before = registry_keys()
+    objs = ["identity", "indicator", "relationship", "marking-definition", "observed-data", "report"]
+    scos = ["file", "url", "ipv4-addr", "domain-name", "network-traffic"]
     for mod, ver in ((stix2.v21, "2.1"), (stix2.v20, "2.0")):
-        for dec, names, extra in ((mod.CustomObject, ["file", "identity", "ipv4-addr", "indicator", "relationship", "bundle", "marking-definition", "domain-name", "network-traffic"], ()),
-                                  (mod.CustomObservable, ["identity", "file", "indicator", "observed-data", "url", "report", "sighting"], ()),
+        # (2.1 objects and observables share one namespace of type names; 2.0 keeps them apart, so only names of the same
+        # category are taken there)
+        for dec, names, extra in ((mod.CustomObject, objs + (scos if ver == "2.1" else []), ()),
+                                  (mod.CustomObservable, scos + (objs[:4] + ["sighting"] if ver == "2.1" else []), ()),
                                   (mod.CustomMarking, ["tlp", "statement"], ()), (mod.CustomExtension, ["ntfs-ext", "archive-ext", "tcp-ext", "socket-ext"], ())):
             for name in names:
                 n += 1
@@ -34,8 +40,17 @@ def refused_registrations():
                         dec(name, [("prop_one", P.StringProperty())])(type("Refused", (object,), {}))
                 except Exception:
                     pass
+    # (on the tree as it is every one of them is refused and the registries are what they were -- checked when this list was
+    # written, and by C17 / C19 on every run; if a refusal does leave something behind, the workloads judge ordinary content
+    # against that registry, which is the point)
+    LEFT_BEHIND[:] = sorted(k[:3] for k in registry_keys() - before)
     _refused_done.append(n)
     return n
+
+
+def registry_keys():
+    from stix2 import registry
+    return {(v, cat, name, id(cls)) for v, cats in registry.STIX2_OBJ_MAPS.items() for cat, mp in cats.items() for name, cls in mp.items()}
 
 
 def ensure_registered():
